@@ -40,6 +40,7 @@ def translate() -> tuple[str, dict]:
     id_stores: list[tuple[str, int, bool]] = []
     side: dict = {'files': {}}
     fix_pos = None
+    fix_defer = None
     fix_start = None
     lower_guard = None
     class_kind: list[tuple[str, int, bool]] = []
@@ -92,6 +93,7 @@ def translate() -> tuple[str, dict]:
                     for f in n.body:
                         if isinstance(f, ast.FunctionDef) and f.name == '__init__':
                             fix_pos = _fixup_init_test(f)
+                            fix_defer = _fixup_init_defers(f)
                         if isinstance(f, ast.FunctionDef) and f.name == '__setitem__':
                             fix_start = _fixup_set_start(f)
     if fix_pos is None or fix_start is None:
@@ -121,6 +123,7 @@ def translate() -> tuple[str, dict]:
         '].',
         f'Definition fixup_init_requires_positive : bool := {"true" if fix_pos else "false"}.',
         f'Definition fixup_set_start : Z := {fix_start}%Z.',
+        f'Definition fixup_init_defers_reinsertion : bool := {"true" if fix_defer else "false"}.',
         '(* the map argument of every constructor / nested copy() call inside copy() methods and collapse_one:',
         '   does the new object take its ID from the destination map? *)',
         'Definition copy_sites : list (kind * string * bool) := [',
@@ -131,7 +134,7 @@ def translate() -> tuple[str, dict]:
         '',
     ]
     side.update(releases=[list(r) for r in releases], acquires=[list(a) for a in acquires],
-                id_stores=[list(s) for s in id_stores], fixup_init_requires_positive=fix_pos, fixup_set_start=fix_start,
+                id_stores=[list(s) for s in id_stores], fixup_init_requires_positive=fix_pos, fixup_set_start=fix_start, fixup_init_defers=fix_defer,
                 idman_lower_guard=lower_guard, class_kind=[list(c) for c in class_kind],
                 copy_sites=[list(c) for c in copy_rows], node_realloc_on_add=node_realloc, node_release_in_del=node_in_del)
     return '\n'.join(lines), side
@@ -171,6 +174,33 @@ def _fixup_init_test(f: ast.FunctionDef) -> bool:
                 return True
             raise TranslateError(f'EntityFixup.__init__: unrecognised acceptance test `{src}` (line {node.lineno})')
     raise TranslateError('EntityFixup.__init__: no acceptance test found')
+
+
+def _fixup_init_defers(f: ast.FunctionDef) -> bool:
+    """What happens to a value whose index is refused: collected (`<list>.append(fix)`) and re-inserted by a later
+    loop (True), or re-inserted at once with `self[fix.var] = fix.value` inside the first loop (False)."""
+    for node in ast.walk(f):
+        if isinstance(node, ast.For) and any(isinstance(n, ast.If) for n in node.body):
+            test = next(n for n in node.body if isinstance(n, ast.If))
+            if len(test.orelse) != 1:
+                raise TranslateError(f'EntityFixup.__init__: unrecognised handling of refused indexes (line {test.lineno})')
+            st = test.orelse[0]
+            src = ast.unparse(st)
+            if isinstance(st, ast.Expr) and isinstance(st.value, ast.Call) and isinstance(st.value.func, ast.Attribute) \
+                    and st.value.func.attr == 'append' and isinstance(st.value.func.value, ast.Name) \
+                    and ast.unparse(st.value.args[0]) == node.target.id:
+                lst = st.value.func.value.id
+                # a later loop over that list must re-insert through __setitem__
+                later = [n for n in f.body if isinstance(n, ast.For) and n.lineno > node.lineno
+                         and isinstance(n.iter, ast.Name) and n.iter.id == lst]
+                if len(later) != 1 or not any(isinstance(x, ast.Assign) and isinstance(x.targets[0], ast.Subscript)
+                                              and ast.unparse(x.targets[0].value) == 'self' for x in later[0].body):
+                    raise TranslateError(f'EntityFixup.__init__: refused values collected in `{lst}` are not re-inserted by a later loop')
+                return True
+            if isinstance(st, ast.Assign) and isinstance(st.targets[0], ast.Subscript) and ast.unparse(st.targets[0].value) == 'self':
+                return False
+            raise TranslateError(f'EntityFixup.__init__: unrecognised handling of refused indexes `{src}` (line {st.lineno})')
+    raise TranslateError('EntityFixup.__init__: first pass over the fixup list not found')
 
 
 def _fixup_set_start(f: ast.FunctionDef) -> int:
